@@ -82,12 +82,9 @@ def mp_store_world(scratch, name, contents, docs, pids, fmts):
 
 
 def mp_lists(store):
-    out = {}
-    for _c, _l, listattr in S.SYNC_ATTRS["mp"]:
-        if not hasattr(store, listattr):
-            return None
-        out[listattr] = list(getattr(store, listattr))
-    return out
+    """The multiprocessing-mode locked-identifier lists of an instance (None when it has none)."""
+    out = S.locked_lists_generic(store, "_mp")
+    return out or None
 
 
 def run_equiv(n, sub_seed):
@@ -211,7 +208,7 @@ def run_histories(n, sub_seed, mode="procs"):
             wit = {"engine": "C16c", "start": start, "plans": plans, "exit_codes": codes,
                    "history": [{k2: r.get(k2) for k2 in ("w", "i", "t0", "t1", "ok", "exc", "msg")} for r in records]}
             shape = {"ops": sorted({o["op"] for p in plans for o in p})}
-            lists = mp_lists(w.store) if mode == "procs" else {k2: v for k2, v in S.locked_lists(w.store, "th").items()}
+            lists = mp_lists(w.store) if mode == "procs" else S.locked_lists_generic(w.store, "_th")
             if hung:
                 # judged by state, not by time alone: after the generous watchdog every unfinished worker must be
                 # found PARKED in a condition wait() of the store (stack inspection / faulthandler dump) while all
